@@ -2,6 +2,7 @@ import ComposeVerif.Ops.Common
 import ComposeVerif.Model.Heap
 import ComposeVerif.Gen.CopyPlan
 import ComposeVerif.Model.Derivations
+import ComposeVerif.Model.HeapVisit
 /-! line-protocol ops for C14: `c14.copy` (model of the generated deep copy), `c14.spec` (isolation decided by the spec) -/
 open Lean
 namespace CV.Ops.C14
@@ -137,6 +138,33 @@ def pdataOf (j : Json) : PData :=
   | .arr a => some (a.toList.map fun x => match x with | .str s => s | _ => "")
   | _ => none
 
+/-- executable reading of `Spec/HeapCarry.Keeps` (the writes keep field `g` of the project struct at `a0`); equality of the
+kept field is decided on the wire rendering -/
+def keepsJ (a0 g : Nat) : List (Nat × Cell) → List (Key × GoVal) → Bool
+  | [], _ => true
+  | (a, cell) :: r, ks =>
+    if a = a0 then
+      match cell with
+      | .pointee (.struct ks') =>
+        (kidOf (.fld g) ks').isSome == (kidOf (.fld g) ks).isSome &&
+        (toJson ((kidOf (.fld g) ks').getD .nil)).compress == (toJson ((kidOf (.fld g) ks).getD .nil)).compress &&
+        keepsJ a0 g r ks'
+      | _ => false
+    else !(addrs ((kidOf (.fld g) ks).getD .nil)).contains a && keepsJ a0 g r (writeKids a cell ks)
+
+/-- the fields of the copy the program's write log does not keep (`none`: the result is not "the first copy after the
+program's writes" — programs that copy more than once — so `carry_partial` does not apply to this run) -/
+def affectedFields (plan : Plan) (src : GoVal) (n : Nat) (st : St) (res : GoVal) : Option (List String) :=
+  let c0 := (exec plan src n).1
+  match c0 with
+  | .ptr a0 (.struct ks) =>
+    if (toJson (writes st.log c0)).compress == (toJson res).compress then
+      some (ks.filterMap fun kv => match kv.1 with
+        | .fld g => if keepsJ a0 g st.log ks then none else some (fieldName g)
+        | _ => none)
+    else none
+  | _ => none
+
 /-- the heap program of a derivation run on the encoded receiver: result, error class, and what the model observed
 about its own run (receiver variable unchanged, every write above the receiver's frontier) -/
 def derivOp : Handler := fun args =>
@@ -154,11 +182,52 @@ def derivOp : Handler := fun args =>
       ("err", match st.err with | some e => Json.str e | none => Json.null),
       ("recvUnchanged", Json.bool recvSame), ("confined", Json.bool confined),
       ("wellTyped", Json.bool (match res with | .nil => true | _ => hasTy ty res)), ("rf", Json.bool (rfL prog)),
-      ("writes", (st.log.length : Nat))]
+      ("writes", (st.log.length : Nat)),
+      ("affected", match affectedFields plan src n st res with
+        | some l => Json.arr (l.map Json.str).toArray
+        | none => Json.null)]
   | none, _, _ => Json.mkObj [("bad", "no Project root")]
   | _, none, _ => Json.mkObj [("bad", .str ("no program for " ++ getStr args "op"))]
   | _, _, .error e => Json.mkObj [("bad", .str e)]
 
-def handlers : List (String × Handler) := [("c14.copy", copyOp), ("c14.spec", specOp), ("c14.deriv", derivOp)]
+/-- which branches of the walk an input can reach (input distribution of `c14.visit`), from the final state and the receiver -/
+def visitBranches (src : GoVal) (policy : String) (st : CV.Heap.Visit.VSt) : List String :=
+  let svcs := CV.Heap.Deriv.mapEntries (getFld CV.Heap.Deriv.fServices src)
+  let visited := st.out.map (·.1)
+  let optMissing := visited.any fun n => (CV.Heap.Deriv.mapEntries (getFld CV.Heap.Deriv.fDependsOn (getIdx n (getFld CV.Heap.Deriv.fServices src)))).any fun (d, dv) =>
+    !(svcs.any (·.1 == d)) && scalarStr (getFld CV.Heap.Deriv.fRequired dv) != "b:true"
+  (if st.err == some "no such service" then ["error-no-such-service"] else []) ++
+  (if st.out.isEmpty && st.err.isNone then ["nothing-visited"] else []) ++
+  (if st.out.length > 1 then ["several-visited"] else []) ++
+  (if policy == "deps" && optMissing && st.err.isNone then ["optional-missing-dependency-skipped"] else []) ++
+  (if policy == "dependents" && st.log.length > st.out.length then ["dependent-map-stored"] else []) ++
+  (if st.out.any (fun e => !(CV.Heap.Deriv.isNil (getFld CV.Heap.Deriv.fDependsOn e.2))) then ["visited-has-depends-on"] else [])
+
+/-- the walk of `withServices` on the encoded receiver: the services handed to the visitor (as one `Services` map made
+after the walk), error class, and whether every write of the walk went through memory allocated since the call -/
+def visitOp : Handler := fun args =>
+  match rootOf "ServiceConfig", ofJson (getObj args "src") with
+  | some (ty, plan), .ok src =>
+    let n := (oaddrs src).foldl (fun m a => max m (a+1)) (frontier src)
+    let policy := getStr args "policy"
+    let st := CV.Heap.Visit.forEachService ty plan src policy false (getStrList args "names") n
+    let res : GoVal := .map st.next (st.out.map fun e => (Key.str e.1, match e.2 with | .ptr _ v => v | v => v))
+    Json.mkObj [("res", toJson (sortMaps res)),
+      ("err", match st.err with | some e => Json.str e | none => Json.null),
+      ("confined", Json.bool (st.log.all fun w => n ≤ w.1)),
+      ("writes", (st.log.length : Nat)),
+      ("order", Json.arr (st.out.map fun e => Json.str e.1).toArray),
+      -- cross-check of two models: the pure closure the WithSelectedServices program uses for `p.ForEachService(names, set.Add, …)`
+      ("selectedAgrees", Json.bool (
+        let names := getStrList args "names"
+        let names' := if names.isEmpty then mapKeys (getFld CV.Heap.Deriv.fServices src) else names
+        match CV.Heap.Deriv.selected src names' policy with
+        | none => st.err == some "no such service"
+        | some set => st.err.isNone && set.all (fun x => st.out.any (·.1 == x)) && st.out.all (fun e => set.contains e.1))),
+      ("branches", Json.arr ((visitBranches src policy st).map Json.str).toArray)]
+  | none, _ => Json.mkObj [("bad", "no ServiceConfig root")]
+  | _, .error e => Json.mkObj [("bad", .str e)]
+
+def handlers : List (String × Handler) := [("c14.copy", copyOp), ("c14.spec", specOp), ("c14.deriv", derivOp), ("c14.visit", visitOp)]
 
 end CV.Ops.C14
